@@ -54,3 +54,45 @@ Definition check_receipt (c : N * rcpt * bstr * bstr) : N :=
 
 Definition check_receipts (l : list (N * rcpt * bstr * bstr)) : list (N * N) :=
   filter_map (fun c => let r := check_receipt c in if r =? 0 then None else Some (fst (fst (fst c)), r)) l.
+
+(* ---- messages, archives and block sets (C13) ---- *)
+From Ucanto Require Import Blockstore MessageFormat.
+
+Definition amsg_eqb (a b : amsg) : bool :=
+  option_eqb (list_eqb beq) (m_execute a) (m_execute b) &&
+  option_eqb (list_eqb (fun x y => beq (fst x) (fst y) && beq (snd x) (snd y))) (m_report a) (m_report b).
+
+(* kind 0: message root block (msg, bytes); kind 1: archive variant block (link, bytes);
+   result 0 agreement, 1 bytes differ, 2 decode differs *)
+Definition check_message (c : N * amsg * bstr) : N :=
+  match c with (_, m, bytes) =>
+    if negb (beq (message_bytes m) bytes) then 1
+    else match message_decode bytes with
+         | Some m' => if amsg_eqb m' (canon_msg m) then 0 else 2
+         | None => 2
+         end
+  end.
+Definition check_messages (l : list (N * amsg * bstr)) : list (N * N) :=
+  filter_map (fun c => let r := check_message c in if r =? 0 then None else Some (fst (fst c), r)) l.
+
+Definition check_archive (c : N * bstr * bstr) : N :=
+  match c with (_, l, bytes) =>
+    if negb (beq (cbor_encode (archive_ipld l)) bytes) then 1
+    else match cbor_decode_all bytes with
+         | Some v => match archive_of_ipld v with Some l' => if beq l l' then 0 else 2 | None => 2 end
+         | None => 2
+         end
+  end.
+Definition check_archives (l : list (N * bstr * bstr)) : list (N * N) :=
+  filter_map (fun c => let r := check_archive c in if r =? 0 then None else Some (fst (fst c), r)) l.
+
+(* block sequences: Delegation.Blocks() and message Blocks() as link ids *)
+Definition check_dblocks (c : N * dtree * list N) : N :=
+  match c with (_, d, obs) => if list_eqb N.eqb (d_links d) obs then 0 else 1 end.
+Definition check_dblocks_all (l : list (N * dtree * list N)) : list (N * N) :=
+  filter_map (fun c => let r := check_dblocks c in if r =? 0 then None else Some (fst (fst c), r)) l.
+
+Definition check_mblocks (c : N * list dtree * list (list blk) * blk * list N) : N :=
+  match c with (_, invs, rb, root, obs) => if list_eqb N.eqb (message_blocks invs rb root) obs then 0 else 1 end.
+Definition check_mblocks_all (l : list (N * list dtree * list (list blk) * blk * list N)) : list (N * N) :=
+  filter_map (fun c => let r := check_mblocks c in if r =? 0 then None else Some (fst (fst (fst (fst c))), r)) l.
